@@ -136,3 +136,347 @@ theorem lor3 (x y : O) (hx : x.is3 = true) (hy : y.is3 = true) :
   cases x <;> cases y <;> simp_all [O.is3] <;> rfl
 theorem lnot3 (x : O) (hx : x.is3 = true) : catchTE (lnot x) = .ok (knot x) := by
   cases x <;> simp_all [O.is3] <;> rfl
+
+/-! ## round 2: every tree, non-boolean leaves included -/
+
+/-! ### pure evaluators: every logical expression evaluates to a VALUE in both runners -/
+
+/-- value of `catchTE r` / `result r` for an `r` that can only raise TypeError -/
+def okOr (r : PyM O) : O := match r with | .ok v => v | .error _ => .e
+
+def pAnd (x y : O) : O := okOr (land x y)
+def pOr (x y : O) : O := okOr (lor x y)
+def pNot (x : O) : O := okOr (lnot x)
+def pCond (c x y : O) : O := okOr (lcond c x y)
+/-- `BoolType(...)` around the compiled fold, seen through `result()` -/
+def coerceC (x : O) : O := okOr (boolTypeOf x)
+
+theorem catchTE_land (x y : O) : catchTE (land x y) = .ok (pAnd x y) := by cases x <;> cases y <;> rfl
+theorem catchTE_lor (x y : O) : catchTE (lor x y) = .ok (pOr x y) := by cases x <;> cases y <;> rfl
+theorem catchTE_lnot (x : O) : catchTE (lnot x) = .ok (pNot x) := by cases x <;> rfl
+theorem catchTE_lcond (c x y : O) : catchTE (lcond c x y) = .ok (pCond c x y) := by
+  cases c <;> rfl
+
+mutual
+def vI : LExpr → O
+  | .lit o => o
+  | .and a b => pAnd (vI a) (vI b)
+  | .or a b => pOr (vI a) (vI b)
+  | .not a => pNot (vI a)
+  | .cond c x y => if (vI c).truthy then pCond (vI c) (vI x) .f else pCond (vI c) .f (vI y)
+  | .all xs => (vIs xs).foldl pAnd .t
+  | .exists_ xs => (vIs xs).foldl pOr .f
+def vIs : List LExpr → List O
+  | [] => []
+  | x :: xs => vI x :: vIs xs
+end
+
+mutual
+def vC : LExpr → O
+  | .lit o => o
+  | .and a b => pAnd (vC a) (vC b)
+  | .or a b => pOr (vC a) (vC b)
+  | .not a => pNot (vC a)
+  | .cond c x y => pCond (vC c) (vC x) (vC y)
+  | .all xs => coerceC ((vCs xs).foldl pAnd .t)
+  | .exists_ xs => coerceC ((vCs xs).foldl pOr .f)
+def vCs : List LExpr → List O
+  | [] => []
+  | x :: xs => vC x :: vCs xs
+end
+
+theorem foldlM_land (l : List O) (acc : O) :
+    l.foldlM (fun acc x => catchTE (land acc x)) acc = .ok (l.foldl pAnd acc) := by
+  induction l generalizing acc with
+  | nil => rfl
+  | cons x xs ih => rw [List.foldlM_cons, catchTE_land]; exact ih _
+theorem foldlM_lor (l : List O) (acc : O) :
+    l.foldlM (fun acc x => catchTE (lor acc x)) acc = .ok (l.foldl pOr acc) := by
+  induction l generalizing acc with
+  | nil => rfl
+  | cons x xs ih => rw [List.foldlM_cons, catchTE_lor]; exact ih _
+
+mutual
+theorem evI_eq_vI : (e : LExpr) → evI e = .ok (vI e)
+  | .lit o => rfl
+  | .and a b => by simp [evI, vI, evI_eq_vI a, evI_eq_vI b, bind, Except.bind, catchTE_land]
+  | .or a b => by simp [evI, vI, evI_eq_vI a, evI_eq_vI b, bind, Except.bind, catchTE_lor]
+  | .not a => by simp [evI, vI, evI_eq_vI a, bind, Except.bind, catchTE_lnot]
+  | .cond c x y => by
+      simp only [evI, vI, evI_eq_vI c, evI_eq_vI x, evI_eq_vI y, bind, Except.bind]
+      split <;> simp [catchTE_lcond]
+  | .all xs => by simp [evI, vI, evIs_eq_vIs xs, bind, Except.bind, allI, foldlM_land]
+  | .exists_ xs => by simp [evI, vI, evIs_eq_vIs xs, bind, Except.bind, existsI, foldlM_lor]
+theorem evIs_eq_vIs : (xs : List LExpr) → evIs xs = .ok (vIs xs)
+  | [] => rfl
+  | x :: xs => by simp [evIs, vIs, evI_eq_vI x, evIs_eq_vIs xs, bind, Except.bind]
+end
+
+/-! compiled runner -/
+theorem result_land (x y : O) : result (land x y) = .ok (pAnd x y) := by cases x <;> cases y <;> rfl
+theorem result_lor (x y : O) : result (lor x y) = .ok (pOr x y) := by cases x <;> cases y <;> rfl
+
+/-- the denotation of the transpiled code either returns the value `vC e`, or raises TypeError where `vC e` is the error -/
+def CInv5 (e : LExpr) : Prop := evC e = .ok (vC e) ∨ (evC e = .error .typeError ∧ vC e = .e)
+
+theorem result_of_CInv5 {e : LExpr} (h : CInv5 e) : result (evC e) = .ok (vC e) := by
+  rcases h with h | ⟨h, hk⟩
+  · rw [h]; rfl
+  · rw [h, hk]; rfl
+
+theorem okOr_cases (r : PyM O) (h : (∃ v, r = .ok v) ∨ r = .error .typeError) :
+    r = .ok (okOr r) ∨ (r = .error .typeError ∧ okOr r = .e) := by
+  rcases h with ⟨v, rfl⟩ | rfl
+  · left; rfl
+  · right; exact ⟨rfl, rfl⟩
+
+theorem land_shape (x y : O) : (∃ v, land x y = .ok v) ∨ land x y = .error .typeError := by
+  cases x <;> cases y <;> first | (left; exact ⟨_, rfl⟩) | (right; rfl)
+theorem lor_shape (x y : O) : (∃ v, lor x y = .ok v) ∨ lor x y = .error .typeError := by
+  cases x <;> cases y <;> first | (left; exact ⟨_, rfl⟩) | (right; rfl)
+theorem lnot_shape (x : O) : (∃ v, lnot x = .ok v) ∨ lnot x = .error .typeError := by
+  cases x <;> first | (left; exact ⟨_, rfl⟩) | (right; rfl)
+theorem lcond_shape (c x y : O) : (∃ v, lcond c x y = .ok v) ∨ lcond c x y = .error .typeError := by
+  cases c <;> first | (left; exact ⟨_, rfl⟩) | (right; rfl)
+theorem boolTypeOf_shape (x : O) : (∃ v, boolTypeOf x = .ok v) ∨ boolTypeOf x = .error .typeError := by
+  cases x <;> first | (left; exact ⟨_, rfl⟩) | (right; rfl)
+
+mutual
+theorem evC_inv5 : (e : LExpr) → CInv5 e
+  | .lit o => by cases o <;> simp [CInv5, evC, vC]
+  | .and a b => by
+      have ha := result_of_CInv5 (evC_inv5 a); have hb := result_of_CInv5 (evC_inv5 b)
+      simp only [CInv5, evC, vC, ha, hb, bind, Except.bind]
+      exact okOr_cases _ (land_shape _ _)
+  | .or a b => by
+      have ha := result_of_CInv5 (evC_inv5 a); have hb := result_of_CInv5 (evC_inv5 b)
+      simp only [CInv5, evC, vC, ha, hb, bind, Except.bind]
+      exact okOr_cases _ (lor_shape _ _)
+  | .not a => by
+      rcases evC_inv5 a with ha | ⟨ha, hk⟩
+      · simp only [CInv5, evC, vC, ha, bind, Except.bind]
+        exact okOr_cases _ (lnot_shape _)
+      · have : evC (.not a) = .error .typeError := by simp [evC, ha, bind, Except.bind]
+        exact Or.inr ⟨this, by simp only [vC, hk]; rfl⟩
+  | .cond c x y => by
+      have hc := result_of_CInv5 (evC_inv5 c)
+      have hx := result_of_CInv5 (evC_inv5 x)
+      have hy := result_of_CInv5 (evC_inv5 y)
+      simp only [CInv5, evC, vC, hc, hx, hy, bind, Except.bind]
+      exact okOr_cases _ (lcond_shape _ _ _)
+  | .all xs => by
+      simp only [CInv5, evC, vC, evCs_eq_vCs xs, bind, Except.bind, allC, foldlM_land]
+      exact okOr_cases _ (boolTypeOf_shape _)
+  | .exists_ xs => by
+      simp only [CInv5, evC, vC, evCs_eq_vCs xs, bind, Except.bind, existsC, foldlM_lor]
+      exact okOr_cases _ (boolTypeOf_shape _)
+theorem evCs_eq_vCs : (xs : List LExpr) → evCs xs = .ok (vCs xs)
+  | [] => rfl
+  | x :: xs => by
+      simp [evCs, vCs, result_of_CInv5 (evC_inv5 x), evCs_eq_vCs xs, bind, Except.bind]
+end
+
+/-! agreement with the (partial) specification -/
+
+/-- `v` is what the specification asks for, where it asks for anything -/
+def agrees : Option O → O → Bool
+  | none, _ => true
+  | some o, v => v == o
+
+def agreesL : List (Option O) → List O → Bool
+  | [], [] => true
+  | s :: ss, v :: vs => agrees s v && agreesL ss vs
+  | _, _ => false
+
+theorem agrees_and (sa sb : Option O) (x y : O) (ha : agrees sa x = true) (hb : agrees sb y = true) :
+    agrees (specBin .f .t sa sb) (pAnd x y) = true := by
+  rcases sa with _ | (_|_|_|_|_) <;> rcases sb with _ | (_|_|_|_|_) <;> cases x <;> cases y <;>
+    first | rfl | (exact absurd ha (by decide)) | (exact absurd hb (by decide))
+theorem agrees_or (sa sb : Option O) (x y : O) (ha : agrees sa x = true) (hb : agrees sb y = true) :
+    agrees (specBin .t .f sa sb) (pOr x y) = true := by
+  rcases sa with _ | (_|_|_|_|_) <;> rcases sb with _ | (_|_|_|_|_) <;> cases x <;> cases y <;>
+    first | rfl | (exact absurd ha (by decide)) | (exact absurd hb (by decide))
+theorem agrees_not (sa : Option O) (x : O) (ha : agrees sa x = true) : agrees (specNot sa) (pNot x) = true := by
+  rcases sa with _ | (_|_|_|_|_) <;> cases x <;> first | rfl | (exact absurd ha (by decide))
+
+theorem agrees_condI (sc sx sy : Option O) (c x y : O) (hc : agrees sc c = true) (hx : agrees sx x = true)
+    (hy : agrees sy y = true) :
+    agrees (specCond sc sx sy) (if c.truthy then pCond c x .f else pCond c .f y) = true := by
+  rcases sc with _ | (_|_|_|_|_) <;> cases c <;>
+    first | rfl | (exact absurd hc (by decide)) | exact hx | exact hy
+theorem agrees_condC (sc sx sy : Option O) (c x y : O) (hc : agrees sc c = true) (hx : agrees sx x = true)
+    (hy : agrees sy y = true) : agrees (specCond sc sx sy) (pCond c x y) = true := by
+  rcases sc with _ | (_|_|_|_|_) <;> cases c <;>
+    first | rfl | (exact absurd hc (by decide)) | exact hx | exact hy
+
+theorem agrees_foldl_and (ss : List (Option O)) (vs : List O) (sacc : Option O) (acc : O)
+    (h : agreesL ss vs = true) (ha : agrees sacc acc = true) :
+    agrees (ss.foldl (specBin .f .t) sacc) (vs.foldl pAnd acc) = true := by
+  induction ss generalizing vs sacc acc with
+  | nil => cases vs with
+    | nil => exact ha
+    | cons v vs => simp [agreesL] at h
+  | cons s ss ih => cases vs with
+    | nil => simp [agreesL] at h
+    | cons v vs =>
+      simp [agreesL] at h
+      exact ih vs _ _ h.2 (agrees_and _ _ _ _ ha h.1)
+theorem agrees_foldl_or (ss : List (Option O)) (vs : List O) (sacc : Option O) (acc : O)
+    (h : agreesL ss vs = true) (ha : agrees sacc acc = true) :
+    agrees (ss.foldl (specBin .t .f) sacc) (vs.foldl pOr acc) = true := by
+  induction ss generalizing vs sacc acc with
+  | nil => cases vs with
+    | nil => exact ha
+    | cons v vs => simp [agreesL] at h
+  | cons s ss ih => cases vs with
+    | nil => simp [agreesL] at h
+    | cons v vs =>
+      simp [agreesL] at h
+      exact ih vs _ _ h.2 (agrees_or _ _ _ _ ha h.1)
+
+/-- the specification never asks for a non-boolean VALUE out of `all`/`exists` -/
+def notNb : Option O → Bool
+  | some .vt => false | some .vf => false | _ => true
+theorem specBin_notNb_and (a b : Option O) : notNb (specBin .f .t a b) = true := by
+  rcases a with _ | (_|_|_|_|_) <;> rcases b with _ | (_|_|_|_|_) <;> rfl
+theorem specBin_notNb_or (a b : Option O) : notNb (specBin .t .f a b) = true := by
+  rcases a with _ | (_|_|_|_|_) <;> rcases b with _ | (_|_|_|_|_) <;> rfl
+theorem foldl_notNb_and (ss : List (Option O)) (acc : Option O) (h : notNb acc = true) :
+    notNb (ss.foldl (specBin .f .t) acc) = true := by
+  induction ss generalizing acc with
+  | nil => exact h
+  | cons s ss ih => exact ih _ (specBin_notNb_and _ _)
+theorem foldl_notNb_or (ss : List (Option O)) (acc : Option O) (h : notNb acc = true) :
+    notNb (ss.foldl (specBin .t .f) acc) = true := by
+  induction ss generalizing acc with
+  | nil => exact h
+  | cons s ss ih => exact ih _ (specBin_notNb_or _ _)
+theorem agrees_coerce (s : Option O) (v : O) (hn : notNb s = true) (h : agrees s v = true) :
+    agrees s (coerceC v) = true := by
+  rcases s with _ | (_|_|_|_|_) <;> cases v <;>
+    first | rfl | (exact absurd h (by decide)) | (exact absurd hn (by decide))
+
+mutual
+theorem spec_agrees_I : (e : LExpr) → agrees (spec e) (vI e) = true
+  | .lit o => by cases o <;> rfl
+  | .and a b => by simp only [spec, vI]; exact agrees_and _ _ _ _ (spec_agrees_I a) (spec_agrees_I b)
+  | .or a b => by simp only [spec, vI]; exact agrees_or _ _ _ _ (spec_agrees_I a) (spec_agrees_I b)
+  | .not a => by simp only [spec, vI]; exact agrees_not _ _ (spec_agrees_I a)
+  | .cond c x y => by
+      simp only [spec, vI]
+      exact agrees_condI _ _ _ _ _ _ (spec_agrees_I c) (spec_agrees_I x) (spec_agrees_I y)
+  | .all xs => by simp only [spec, vI]; exact agrees_foldl_and _ _ _ _ (specs_agrees_I xs) rfl
+  | .exists_ xs => by simp only [spec, vI]; exact agrees_foldl_or _ _ _ _ (specs_agrees_I xs) rfl
+theorem specs_agrees_I : (xs : List LExpr) → agreesL (specs xs) (vIs xs) = true
+  | [] => rfl
+  | x :: xs => by simp only [specs, vIs, agreesL, spec_agrees_I x, specs_agrees_I xs]; rfl
+end
+
+mutual
+theorem spec_agrees_C : (e : LExpr) → agrees (spec e) (vC e) = true
+  | .lit o => by cases o <;> rfl
+  | .and a b => by simp only [spec, vC]; exact agrees_and _ _ _ _ (spec_agrees_C a) (spec_agrees_C b)
+  | .or a b => by simp only [spec, vC]; exact agrees_or _ _ _ _ (spec_agrees_C a) (spec_agrees_C b)
+  | .not a => by simp only [spec, vC]; exact agrees_not _ _ (spec_agrees_C a)
+  | .cond c x y => by
+      simp only [spec, vC]
+      exact agrees_condC _ _ _ _ _ _ (spec_agrees_C c) (spec_agrees_C x) (spec_agrees_C y)
+  | .all xs => by
+      simp only [spec, vC]
+      exact agrees_coerce _ _ (foldl_notNb_and _ _ rfl) (agrees_foldl_and _ _ _ _ (specs_agrees_C xs) rfl)
+  | .exists_ xs => by
+      simp only [spec, vC]
+      exact agrees_coerce _ _ (foldl_notNb_or _ _ rfl) (agrees_foldl_or _ _ _ _ (specs_agrees_C xs) rfl)
+theorem specs_agrees_C : (xs : List LExpr) → agreesL (specs xs) (vCs xs) = true
+  | [] => rfl
+  | x :: xs => by simp only [specs, vCs, agreesL, spec_agrees_C x, specs_agrees_C xs]; rfl
+end
+
+theorem agrees_some {o v : O} (h : agrees (some o) v = true) : v = o := by
+  cases o <;> cases v <;> first | rfl | (exact absurd h (by decide))
+
+/-- the specification is DEFINED, with a three-valued answer -/
+def defd3 : Option O → Bool
+  | some .t => true | some .f => true | some .e => true | _ => false
+theorem specBin_defd3_and (a b : Option O) (ha : defd3 a = true) (hb : defd3 b = true) :
+    defd3 (specBin .f .t a b) = true := by
+  rcases a with _ | (_|_|_|_|_) <;> rcases b with _ | (_|_|_|_|_) <;>
+    first | rfl | (exact absurd ha (by decide)) | (exact absurd hb (by decide))
+theorem specBin_defd3_or (a b : Option O) (ha : defd3 a = true) (hb : defd3 b = true) :
+    defd3 (specBin .t .f a b) = true := by
+  rcases a with _ | (_|_|_|_|_) <;> rcases b with _ | (_|_|_|_|_) <;>
+    first | rfl | (exact absurd ha (by decide)) | (exact absurd hb (by decide))
+theorem specNot_defd3 (a : Option O) (ha : defd3 a = true) : defd3 (specNot a) = true := by
+  rcases a with _ | (_|_|_|_|_) <;> first | rfl | (exact absurd ha (by decide))
+theorem specCond_defd3 (c x y : Option O) (hc : defd3 c = true) (hx : defd3 x = true) (hy : defd3 y = true) :
+    defd3 (specCond c x y) = true := by
+  rcases c with _ | (_|_|_|_|_) <;> first | rfl | exact hx | exact hy | (exact absurd hc (by decide))
+theorem foldl_defd3_and (ss : List (Option O)) (acc : Option O) (h : defd3 acc = true)
+    (hs : ∀ s ∈ ss, defd3 s = true) : defd3 (ss.foldl (specBin .f .t) acc) = true := by
+  induction ss generalizing acc with
+  | nil => exact h
+  | cons s ss ih =>
+    exact ih _ (specBin_defd3_and _ _ h (hs s (by simp))) (fun t ht => hs t (by simp [ht]))
+theorem foldl_defd3_or (ss : List (Option O)) (acc : Option O) (h : defd3 acc = true)
+    (hs : ∀ s ∈ ss, defd3 s = true) : defd3 (ss.foldl (specBin .t .f) acc) = true := by
+  induction ss generalizing acc with
+  | nil => exact h
+  | cons s ss ih =>
+    exact ih _ (specBin_defd3_or _ _ h (hs s (by simp))) (fun t ht => hs t (by simp [ht]))
+
+mutual
+theorem spec_defd3 : (e : LExpr) → b3 e = true → defd3 (spec e) = true
+  | .lit o, h => by cases o <;> simp_all [b3, O.is3, spec, defd3]
+  | .and a b, h => by
+      simp [b3] at h; simp only [spec]; exact specBin_defd3_and _ _ (spec_defd3 a h.1) (spec_defd3 b h.2)
+  | .or a b, h => by
+      simp [b3] at h; simp only [spec]; exact specBin_defd3_or _ _ (spec_defd3 a h.1) (spec_defd3 b h.2)
+  | .not a, h => by simp [b3] at h; simp only [spec]; exact specNot_defd3 _ (spec_defd3 a h)
+  | .cond c x y, h => by
+      simp [b3] at h; simp only [spec]
+      exact specCond_defd3 _ _ _ (spec_defd3 c h.1.1) (spec_defd3 x h.1.2) (spec_defd3 y h.2)
+  | .all xs, h => by
+      simp [b3] at h; simp only [spec]; exact foldl_defd3_and _ _ rfl (specs_defd3 xs h)
+  | .exists_ xs, h => by
+      simp [b3] at h; simp only [spec]; exact foldl_defd3_or _ _ rfl (specs_defd3 xs h)
+theorem specs_defd3 : (xs : List LExpr) → b3s xs = true → ∀ s ∈ specs xs, defd3 s = true
+  | [], _ => by intro s hs; simp [specs] at hs
+  | x :: xs, h => by
+      simp [b3s] at h
+      intro s hs
+      simp [specs] at hs
+      rcases hs with rfl | hs
+      · exact spec_defd3 x h.1
+      · exact specs_defd3 xs h.2 s hs
+end
+
+theorem defd3_some {s : Option O} (h : defd3 s = true) : ∃ o, s = some o := by
+  rcases s with _ | o
+  · exact absurd h (by decide)
+  · exact ⟨o, rfl⟩
+
+theorem foldl_specBin_dec_and (ss : List (Option O)) (acc : Option O) (h : acc = some .f ∨ some .f ∈ ss) :
+    ss.foldl (specBin .f .t) acc = some .f := by
+  induction ss generalizing acc with
+  | nil => simpa using h
+  | cons s ss ih =>
+    apply ih
+    rcases h with rfl | h
+    · left; simp [specBin]
+    · simp at h
+      rcases h with rfl | h
+      · left; simp [specBin]
+      · right; exact h
+theorem foldl_specBin_dec_or (ss : List (Option O)) (acc : Option O) (h : acc = some .t ∨ some .t ∈ ss) :
+    ss.foldl (specBin .t .f) acc = some .t := by
+  induction ss generalizing acc with
+  | nil => simpa using h
+  | cons s ss ih =>
+    apply ih
+    rcases h with rfl | h
+    · left; simp [specBin]
+    · simp at h
+      rcases h with rfl | h
+      · left; simp [specBin]
+      · right; exact h
+
